@@ -209,10 +209,25 @@ func (c *Ctx) VerifiedBeforeSuccess(prop string) {
 	var eqFn *ssa.Function
 	for _, uf := range unit {
 		for _, l := range FindLoops(uf) {
-			if !l.FullRange || l.BoundLen == nil {
+			if l.BoundLen == nil {
 				continue
 			}
 			l := l
+			// the scan starts at 0, or at 1 when every key is compared with the first
+			fromOne := false
+			if !l.FullRange {
+				if l.Phi == nil || l.Idx != ssa.Value(l.Phi) {
+					continue
+				}
+				for _, e := range l.Phi.Edges {
+					if an.IsConstInt(e, 1) {
+						fromOne = true
+					}
+				}
+				if !fromOne {
+					continue
+				}
+			}
 			ok := false
 			hdr := l.Header
 			x, _ := an.Cut(an.CutQuery{From: an.Point{Block: l.BodyFirst, Idx: 0}, Target: func(i ssa.Instruction) bool { return i == hdr.Instrs[0] },
@@ -224,11 +239,24 @@ func (c *Ctx) VerifiedBeforeSuccess(prop string) {
 					if !isCall {
 						return false
 					}
-					r1, i1, ok1 := elemLoad(call.Call.Args[0])
-					r2, _, ok2 := elemLoad(call.Call.Args[1])
-					if ok1 && ok2 && r1 == l.BoundLen && r2 == l.BoundLen && i1 == l.Idx {
-						ok = true
-						return true
+					for _, pair := range [][2]ssa.Value{{call.Call.Args[0], call.Call.Args[1]}, {call.Call.Args[1], call.Call.Args[0]}} {
+						r1, i1, ok1 := elemLoad(pair[0])
+						r2, i2, ok2 := elemLoad(pair[1])
+						if !ok1 || !ok2 || r1 != l.BoundLen || r2 != l.BoundLen || i1 != l.Idx {
+							continue
+						}
+						// the partner: the first key, or (on a scan from 0) the cyclic neighbour (i+1) % len(keys)
+						if an.IsConstInt(i2, 0) {
+							ok = true
+							return true
+						}
+						if rem, isRem := i2.(*ssa.BinOp); isRem && rem.Op == token.REM && !fromOne {
+							add, isAdd := rem.X.(*ssa.BinOp)
+							if isAdd && add.Op == token.ADD && add.X == l.Idx && an.IsConstInt(add.Y, 1) && lenIs(rem.Y, l.BoundLen) {
+								ok = true
+								return true
+							}
+						}
 					}
 					return false
 				}})
@@ -245,7 +273,7 @@ func (c *Ctx) VerifiedBeforeSuccess(prop string) {
 			if ok, wit := successNeeds(eqFn, func(b *ssa.BasicBlock, i int) bool { return b == hdr && b.Succs[i] == exitB }); !ok {
 				c.R.Fail(rule, Fn(D)+":same-key", c.P.FuncPos(T), "success is reachable without the comparison of all participants' public keys having completed", "success only after the pairwise comparison", wit)
 			} else {
-				c.R.OK(rule, Fn(D)+":same-key", c.P.FuncPos(T), "success only after every participant's key was compared equal to its neighbour's (cyclically)")
+				c.R.OK(rule, Fn(D)+":same-key", c.P.FuncPos(T), "success only after every participant's key was compared equal to its cyclic neighbour's, or to the first key")
 			}
 		}
 		keysInT := argInT(eqFn, keysRoot)
@@ -283,12 +311,67 @@ func (c *Ctx) VerifiedBeforeSuccess(prop string) {
 		c.R.Fail(rule, Fn(D)+":windows", c.P.FuncPos(D), "the driver does not recover and verify composite confirmation signatures", "for each window of t signatures: Recover ok and VerifyByte(pubKey, confirmationData) true", nil)
 		return
 	}
-	var win *RotLoop
-	for _, l := range FindRotLoops(W) {
-		if l.Body[recover.Block()] && l.Body[verify.Block()] {
-			if win == nil || len(l.Body) > len(win.Body) {
-				win = l
+	// the window loop: `for i := range n+1-t` (rotated), or `for start := 0; start+t <= n; start++`
+	type winLoop struct {
+		cl     *cloop
+		bound  ssa.Value // rotated form: the trip count expression
+		leqW   ssa.Value // start+w <= n form: w
+		leqLen ssa.Value // ... and n
+		strict bool      // start+w < n: one window fewer
+	}
+	var win *winLoop
+	consider := func(w *winLoop) {
+		if w.cl.body[recover.Block()] && w.cl.body[verify.Block()] {
+			if win == nil || len(w.cl.body) > len(win.cl.body) {
+				win = w
 			}
+		}
+	}
+	for _, l := range FindRotLoops(W) {
+		consider(&winLoop{cl: cloopOfRot(l), bound: l.Bound})
+	}
+	for _, blk := range W.Blocks {
+		if len(blk.Instrs) == 0 {
+			continue
+		}
+		iff, ok := blk.Instrs[len(blk.Instrs)-1].(*ssa.If)
+		if !ok {
+			continue
+		}
+		cond, ok := iff.Cond.(*ssa.BinOp)
+		if !ok || (cond.Op != token.LEQ && cond.Op != token.LSS) {
+			continue
+		}
+		add, ok := cond.X.(*ssa.BinOp)
+		if !ok || add.Op != token.ADD {
+			continue
+		}
+		for _, side := range [][2]ssa.Value{{add.X, add.Y}, {add.Y, add.X}} {
+			phi, ok := side[0].(*ssa.Phi)
+			if !ok || phi.Block() != blk || len(phi.Edges) != 2 {
+				continue
+			}
+			okStep := false
+			for k := 0; k < 2; k++ {
+				if inc, ok := phi.Edges[k].(*ssa.BinOp); ok && inc.Op == token.ADD && inc.X == ssa.Value(phi) && an.IsConstInt(inc.Y, 1) && an.IsConstInt(phi.Edges[1-k], 0) {
+					okStep = true
+				}
+			}
+			if !okStep {
+				continue
+			}
+			l := &Loop{Header: blk, Cond: cond, Idx: phi, Phi: phi, BodyFirst: blk.Succs[0], Exit: blk.Succs[1], Body: map[*ssa.BasicBlock]bool{}}
+			st := []*ssa.BasicBlock{l.BodyFirst}
+			for len(st) > 0 {
+				x := st[len(st)-1]
+				st = st[:len(st)-1]
+				if x == blk || l.Body[x] {
+					continue
+				}
+				l.Body[x] = true
+				st = append(st, x.Succs...)
+			}
+			consider(&winLoop{cl: cloopOfLoop(l), leqW: side[1], leqLen: cond.Y, strict: cond.Op == token.LSS})
 		}
 	}
 	if win == nil {
@@ -299,7 +382,6 @@ func (c *Ctx) VerifiedBeforeSuccess(prop string) {
 	for _, e := range errValuesOfCall(recover) {
 		rerrs[e] = true
 	}
-	latchEnd := win.Latch.Instrs[len(win.Latch.Instrs)-1]
 	for _, ck := range []struct {
 		name string
 		acc  func(a *an.Atom) bool
@@ -308,7 +390,7 @@ func (c *Ctx) VerifiedBeforeSuccess(prop string) {
 		{"VerifyByte == true", func(a *an.Atom) bool { return a != nil && a.Op == "true" && a.LV == verify.Value() }},
 	} {
 		ck := ck
-		x, path := an.Cut(an.CutQuery{From: an.Point{Block: win.Head, Idx: 0}, Target: func(i ssa.Instruction) bool { return i == latchEnd },
+		x, path := an.Cut(an.CutQuery{From: win.cl.iterStart, Target: win.cl.iterEnd,
 			AcceptEdge: func(b *ssa.BasicBlock, i int, a *an.Atom) bool { return ck.acc(a) }})
 		if x != nil {
 			c.R.Fail(rule, Fn(D)+":windows:"+ck.name, c.Pos(verify), "a window of confirmation signatures is passed without ["+ck.name+"]", "every window: recover and verify", an.PathString(c.Pos, path))
@@ -340,7 +422,10 @@ func (c *Ctx) VerifiedBeforeSuccess(prop string) {
 			return ok && isBuiltin(call, "len")
 		}
 		okBound := false
-		if b, ok := strip(win.Bound).(*ssa.BinOp); ok && tVal != nil {
+		if win.leqW != nil {
+			// start + w <= len(list): len+1-w windows
+			okBound = tVal != nil && strip(win.leqW) == tVal && isLen(win.leqLen) && !win.strict
+		} else if b, ok := strip(win.bound).(*ssa.BinOp); ok && tVal != nil {
 			switch {
 			case b.Op == token.SUB && strip(b.Y) == tVal: // (len + 1) - t
 				if a, ok := b.X.(*ssa.BinOp); ok && a.Op == token.ADD {
@@ -354,16 +439,46 @@ func (c *Ctx) VerifiedBeforeSuccess(prop string) {
 				}
 			}
 		}
-		var inner *RotLoop
-		for _, l := range FindRotLoops(W) {
-			if l != win && win.Body[l.Head] && tVal != nil && strip(l.Bound) == tVal {
-				inner = l
+		// the inner loop fills the window: t steps (a count of t, or a range over list[start:start+t])
+		isWindowOf := func(v ssa.Value) bool { // list[i : i+t]
+			sl, ok := v.(*ssa.Slice)
+			if !ok || sl.Low != win.cl.idx || sl.High == nil {
+				return false
+			}
+			hi, ok := sl.High.(*ssa.BinOp)
+			return ok && hi.Op == token.ADD && ((hi.X == win.cl.idx && strip(hi.Y) == tVal) || (hi.Y == win.cl.idx && strip(hi.X) == tVal))
+		}
+		var inner *cloop
+		if tVal != nil {
+			var cands []*cloop
+			for _, l := range FindRotLoops(W) {
+				cands = append(cands, cloopOfRot(l))
+			}
+			for _, l := range FindLoops(W) {
+				if l.FullRange {
+					cl := cloopOfLoop(l)
+					if l.BoundLen != nil && isWindowOf(l.BoundLen) {
+						cl.count = func() countExpr { return countExpr{v: tVal} }
+					}
+					cands = append(cands, cl)
+				}
+			}
+			for _, cl := range cands {
+				inside := len(cl.body) > 0
+				for blk := range cl.body {
+					if !win.cl.body[blk] {
+						inside = false
+					}
+				}
+				if inside && len(cl.body) < len(win.cl.body) && strip(cl.count().v) == tVal {
+					inner = cl
+				}
 			}
 		}
 		nshift := 0
 		okIdx := inner != nil
 		if inner != nil {
-			for b := range inner.Body {
+			for b := range inner.body {
 				for _, ins := range b.Instrs {
 					ia, ok := ins.(*ssa.IndexAddr)
 					if !ok {
@@ -372,8 +487,12 @@ func (c *Ctx) VerifiedBeforeSuccess(prop string) {
 					if mk, isMk := sliceRootExact(ia.X).(*ssa.MakeSlice); isMk && strip(mk.Len) == tVal {
 						continue // the window's own buffers, indexed by j
 					}
-					add, ok := ia.Index.(*ssa.BinOp)
-					if ok && add.Op == token.ADD && ((add.X == ssa.Value(win.Idx) && add.Y == ssa.Value(inner.Idx)) || (add.Y == ssa.Value(win.Idx) && add.X == ssa.Value(inner.Idx))) {
+					// list[i+j], or list[i:i+t][j]
+					if add, ok := ia.Index.(*ssa.BinOp); ok && add.Op == token.ADD && ((add.X == win.cl.idx && add.Y == inner.idx) || (add.Y == win.cl.idx && add.X == inner.idx)) {
+						nshift++
+						continue
+					}
+					if ia.Index == inner.idx && isWindowOf(ia.X) {
 						nshift++
 						continue
 					}
@@ -385,7 +504,7 @@ func (c *Ctx) VerifiedBeforeSuccess(prop string) {
 		case tVal == nil || inner == nil:
 			c.R.Unknown(rule, Fn(D)+":windows:coverage", c.Pos(recover), "the filling of a window (a loop of t steps over the confirmation signatures) is not recognised")
 		case !okBound:
-			c.R.Fail(rule, Fn(D)+":windows:coverage", c.Pos(recover), "the number of windows is not len(participants)+1-t: "+an.Term(win.Bound)+"; signatures at the end of the list are in no verified window", "for i := range len(participants)+1-t", nil)
+			c.R.Fail(rule, Fn(D)+":windows:coverage", c.Pos(recover), "the number of windows is not len(participants)+1-t; signatures at the end of the list are in no verified window", "for i := range len(participants)+1-t", nil)
 		case !okIdx || nshift < 2:
 			c.R.Fail(rule, Fn(D)+":windows:coverage", c.Pos(recover), "window i is not filled from positions i .. i+t-1 of the participants and their confirmation signatures", "ids[j], sigs[j] from participants[i+j], confirmationSigs[i+j]", nil)
 		default:
@@ -415,7 +534,7 @@ func (c *Ctx) VerifiedBeforeSuccess(prop string) {
 	}
 	// success only after the window loop (its zero-iteration bypass is the pre-header edge, see the note)
 	if ok, wit := successNeeds(W, func(b *ssa.BasicBlock, i int) bool {
-		return (b == win.Latch && b.Succs[i] == win.Done) || (b == win.Pre && b.Succs[i] == win.Done)
+		return win.cl.normalExit(b, b.Succs[i]) || win.cl.bypass(b, b.Succs[i])
 	}); !ok {
 		c.R.Fail(rule, Fn(D)+":windows:order", c.P.FuncPos(T), "success is reachable without the window checks having completed", "success only after all windows verified", wit)
 	} else {
